@@ -39,7 +39,7 @@ def checker(ctx) -> ptcheck.Checker:
 
 # generator shapes beyond the default stream (notes/C01.md, "Seeded changes"): integer channel ids incl. 0 and renamings
 # 'A' <-> 0, FunctionPTs whose expression is the time variable itself, nested scalar arithmetic in atomic composites
-GEN = {'int_chan_p': 0.25, 'plain_t_p': 0.2, 'nest_wrap_p': 0.15, 't_param_p': 0.6}
+GEN = {'int_chan_p': 0.25, 'plain_t_p': 0.2, 'nest_wrap_p': 0.15, 't_param_p': 0.6, 'remap_idx_p': 0.35}
 
 
 def shared_grid_case(rng: random.Random):
@@ -98,13 +98,225 @@ def shared_grid_case(rng: random.Random):
             'single': []}
 
 
+def remap_index_case(rng: random.Random):
+    for _ in range(20):
+        try:
+            return _remap_index_case(rng)
+        except Exception:   # noqa -- an ill-formed draw (an atom that ended up not using the index): draw again
+            continue
+    raise core.MachineryError('could not draw a remapped-loop-index case')
+
+
+def _remap_index_case(rng: random.Random):
+    """ForLoopPT(i) -> ... MappingPT({i: f(i)}) ... -> RepetitionPT -> body that uses i, with sequence / repetition
+    levels in between: the mapping shadows the loop index for everything below it, also across the builder frames a
+    repetition opens."""
+    g = ptgen.Gen(rng, 2, measure_p=0.15)
+    env, values = g.params()
+    chans = ptgen.CHAN_POOL[:rng.choice([1, 1, 2])]
+    idx = 'i'
+    a, b, st = rng.choice([(0, 3, 1), (0, 2, 1), (1, 4, 2), (3, 0, -1), (0, 4, 3)])
+    form, f = rng.choice([('%s + 10', lambda x: x + 10), ('2*%s + 1', lambda x: 2 * x + 1), ('%s + 1', lambda x: x + 1),
+                          ('3 - %s', lambda x: 3 - x), ('2*%s', lambda x: 2 * x)])
+    inner_env = env.with_idx(idx, [f(x) for x in range(a, b, st)])
+
+    def atom():
+        return ptgen.strip(g.atom(chans, inner_env, None, idx, allow_multi=rng.random() < 0.3))
+
+    def seq_around(x):
+        parts = [x]
+        if rng.random() < 0.5:
+            parts.insert(rng.randrange(2), atom())
+        return {'k': 'seq', 'subs': parts, 'meas': [], 'cons': []} if len(parts) > 1 or rng.random() < 0.3 else x
+
+    spec = atom()
+    if rng.random() < 0.4:
+        spec = seq_around(spec)
+    spec = {'k': 'rep', 'body': spec, 'count': rng.choice(['2', '2', '3', 'n0 + 1', '1']), 'meas': [], 'cons': []}
+    if rng.random() < 0.3:
+        spec = {'k': 'rep', 'body': spec, 'count': '2', 'meas': [], 'cons': []}
+    if rng.random() < 0.5:
+        spec = seq_around(spec)
+    spec = {'k': 'map', 'body': spec, 'pm': [[idx, form % idx]], 'mm': None, 'cm': None}
+    if rng.random() < 0.4:
+        spec = seq_around(spec)
+    if rng.random() < 0.25:
+        spec = {'k': 'rep', 'body': spec, 'count': '2', 'meas': [], 'cons': []}
+    spec = {'k': 'for', 'body': spec, 'idx': idx, 'range': [str(a), str(b), str(st)], 'meas': [], 'cons': []}
+    pt = ptgen.build(spec)
+    cm = {chans[0]: 'out'} if rng.random() < 0.3 else {}
+    return {'spec': spec, 'params': {k: v for k, v in values.items() if k in pt.parameter_names}, 'cm': cm, 'mm': None,
+            'single': []}
+
+
+# ------------------------------------------------------------------------------------------------
+# time reversal of time-dependent transformations (scalar `pt * 't'`, ParallelChannelPT value '2*t')
+# ------------------------------------------------------------------------------------------------
+# QP.PT models scalar operands / overwritten channel values that are constant in time.  This family is judged
+# against a reference that is *derived from the denotation*: X = op(A, s(t)) for an atomic template A (denoted by
+# Lean, `denote A`) and an affine s(t) = a*t + b (evaluated here, exactly), played forward and time-reversed in a
+# fixed layout of slots of duration D = dur(A):  forward slot: X(tau) = op(A(tau), s(tau)), reversed slot:
+# X(D - tau).
+
+REVT_LAYOUTS = {
+    'rev': (lambda x: {'k': 'rev', 'body': x}, 'R'),
+    'rev-rep': (lambda x: {'k': 'rev', 'body': {'k': 'rep', 'body': x, 'count': '2', 'meas': [], 'cons': []}}, 'RR'),
+    'rep-rev': (lambda x: {'k': 'rep', 'body': {'k': 'rev', 'body': x}, 'count': '2', 'meas': [], 'cons': []}, 'RR'),
+    'seq-fwd-rev': (lambda x: {'k': 'seq', 'subs': [x, {'k': 'rev', 'body': x}], 'meas': [], 'cons': []}, 'FR'),
+    'rev-seq-fwd-rev': (lambda x: {'k': 'rev', 'body': {'k': 'seq', 'subs': [x, {'k': 'rev', 'body': x}], 'meas': [],
+                                                        'cons': []}}, 'FR'),
+    'fwd': (lambda x: x, 'F'),
+}
+
+
+def revt_case(rng: random.Random) -> dict:
+    for _ in range(20):
+        try:
+            return _revt_case(rng)
+        except Exception:   # noqa -- an ill-formed draw
+            continue
+    raise core.MachineryError('could not draw a reversed-time-dependent case')
+
+
+def _revt_case(rng: random.Random) -> dict:
+    g = ptgen.Gen(rng, 2, measure_p=0.0)
+    env, values = g.params()
+    chans = ptgen.CHAN_POOL[:rng.choice([1, 2, 2])]
+    common = g.p2time(env)
+    inner = ptgen.strip(g.atom(chans, env, common, None, allow_multi=True))
+    a = rng.choice([F(1), F(2), F(1, 2), F(-1), F(3, 4), F(-1, 2)])
+    b = rng.choice([F(0), F(0), F(1, 2), F(-1), F(5, 4)])
+    if rng.random() < 0.65:
+        op = rng.choice(['*', '*', '+', '-'])
+        on = sorted(rng.sample(chans, rng.randrange(1, len(chans) + 1))) if rng.random() < 0.4 else None
+        trafo = {'kind': 'arith', 'op': op, 'pt_lhs': rng.random() < 0.5, 'on': on}
+    else:
+        trafo = {'kind': 'par', 'ch': rng.choice(['P', 'P', chans[-1]])}
+    trafo.update(a=[a.numerator, a.denominator], b=[b.numerator, b.denominator])
+    pt = ptgen.build(inner)
+    return {'inner': inner, 'dur': [common[1].numerator, common[1].denominator], 'trafo': trafo,
+            'layout': rng.choice(['rev', 'rev', 'rev-rep', 'rep-rev', 'seq-fwd-rev', 'rev-seq-fwd-rev', 'fwd']),
+            'params': {k: v for k, v in values.items() if k in pt.parameter_names}}
+
+
+def _revt_spec(d: dict) -> dict:
+    a, b = F(*d['trafo']['a']), F(*d['trafo']['b'])
+    s = '%s*t + %s' % (ptgen.fstr(a), ptgen.fstr(b))
+    tr = d['trafo']
+    if tr['kind'] == 'arith':
+        scalar = s if tr['on'] is None else [[c, s] for c in tr['on']]
+        x = {'k': 'arith', 'body': d['inner'], 'op': tr['op'], 'scalar': scalar, 'pt_lhs': tr['pt_lhs']}
+    else:
+        x = {'k': 'par', 'body': d['inner'], 'over': [[tr['ch'], s]]}
+    return REVT_LAYOUTS[d['layout']][0](x)
+
+
+def check_revt(ctx, descs, label='reversed-time-dependent-transformation') -> bool:
+    """implementation: the real template tree, sampled; reference: op(denote(A)(tau'), a*tau' + b) with tau' = tau in a
+    forward slot and D - tau in a reversed slot"""
+    import numpy as np
+    from qupulse.program.loop import to_waveform
+    runs, lines = [], []
+    for d in descs:
+        D = F(*d['dur'])
+        taus = [D * F(2 * k + 1, 64) for k in range(0, 32, 3)]         # never a table breakpoint
+        inner_pt = ptgen.build(d['inner'])
+        case = {'spec': d['inner'], 'params': d['params'], 'cm': {}, 'mm': None, 'single': []}
+        inner_grid = sorted(set(taus) | {D - t for t in taus})
+        lines.append(ptgen.request_line(PID, inner_pt, case, inner_grid, ['windows']))
+        spec = _revt_spec(d)
+        slots = REVT_LAYOUTS[d['layout']][1]
+        grid = [k * D + t for k in range(len(slots)) for t in taus]
+        try:
+            prog = ptgen.build(spec).create_program(parameters=dict(d['params']))
+            wf = to_waveform(prog)
+            times = np.array([float(t) for t in grid])
+            impl = {ptgen.chan_atom(ch): [F(float(x)) if not np.isnan(x) else 'nan' for x in wf.get_sampled(ch, times)]
+                    for ch in wf.defined_channels}
+        except Exception as exc:  # noqa
+            impl = 'raises %s (%s)' % (core.classify_exception(exc), str(exc)[:100])
+        runs.append((d, spec, D, taus, inner_grid, grid, slots, impl))
+    ok = True
+    for (d, spec, D, taus, inner_grid, grid, slots, impl), ans in zip(runs, core.Lean.run(lines)):
+        reply = ptgen.parse_reply(ans)
+        ctx.case('revt %s %s ' % (d['layout'], sorted(d['trafo'].items())) + ptgen.request_line(PID, ptgen.build(d['inner']),
+                 {'params': d['params'], 'cm': {}, 'mm': None}, []), nontrivial=True)
+        ctx.count('family:' + label)
+        ctx.count('revt-layout:' + d['layout'])
+        sp = reply['spec']
+        if sp['status'] != 'ok':
+            ctx.count('revt-inner-not-denoted')
+            continue
+        tr = d['trafo']
+        a, b = F(*tr['a']), F(*tr['b'])
+        at = {ch: dict(zip(inner_grid, [v[0] for v in vals])) for ch, vals in sp['adm'].items()}
+        want = {}
+        for ch in set(at) | ({tr['ch']} if tr['kind'] == 'par' else set()):
+            vals = []
+            for k, slot in enumerate(slots):
+                for tau in taus:
+                    tp = tau if slot == 'F' else D - tau
+                    s = a * tp + b
+                    if tr['kind'] == 'par':
+                        vals.append(s if ch == tr['ch'] else at[ch][tp])
+                    else:
+                        x = at[ch][tp]
+                        applies = tr['on'] is None or ch in tr['on']
+                        if tr['op'] == '*':
+                            vals.append(x * s if applies else x)
+                        elif tr['op'] == '+':
+                            vals.append(x + s if applies else x)
+                        elif tr['pt_lhs']:
+                            vals.append(x - s if applies else x)
+                        else:
+                            vals.append((s if applies else 0) - x)
+            want[ch] = vals
+        what = None
+        if isinstance(impl, str):
+            what = 'instantiating / sampling %s' % impl
+        elif sorted(impl) != sorted(want):
+            what = 'program channels %s, the template denotes %s' % (sorted(impl), sorted(want))
+        else:
+            for ch in sorted(want):
+                bad = [(t, x, w) for t, x, w in zip(grid, impl[ch], want[ch]) if x != w]
+                if bad:
+                    t, x, w = bad[0]
+                    k = int(t / D)
+                    what = ('sample on %s at t=%s is %s, the template denotes %s (slot %d of %s is played %s: the pulse at '
+                            'its local time %s)' % (ch, t, x, w, k, slots, 'time-reversed' if slots[k] == 'R' else 'forward',
+                                                     (D - (t - k * D)) if slots[k] == 'R' else t - k * D))
+                    break
+        if what:
+            ok = False
+            ctx.disagreements += 1
+            ctx.violation('%s [template=%s params=%s]' % (what, _short_spec(spec), d['params']), {'kind': 'revt', 'desc': d})
+    return ok
+
+
+def _short_spec(spec) -> str:
+    k = spec['k']
+    if k == 'arith':
+        l, r = (_short_spec(spec['body']), spec['scalar']) if spec['pt_lhs'] else (spec['scalar'], _short_spec(spec['body']))
+        return '(%s %s %s)' % (l, spec['op'], r)
+    if k == 'par':
+        return 'par(%s, %s)' % (_short_spec(spec['body']), dict(map(tuple, spec['over'])))
+    if k in ('rev', 'rep'):
+        return '%s(%s%s)' % (k, _short_spec(spec['body']), ', ' + spec['count'] if k == 'rep' else '')
+    if k == 'seq':
+        return 'seq(%s)' % ', '.join(_short_spec(x) for x in spec['subs'])
+    return '/'.join(ptgen.spec_kinds(spec))
+
+
 def run(ctx: core.Ctx):
     ctx.rule = ('random well-formed template trees over all 13 node kinds built from the real qupulse classes '
                 '(depth <= 4 quick / <= 6 thorough; parameters, loop ranges incl. empty/negative/non-dividing, injective '
                 'channel mappings with dropped channels, measurements, identifiers; dyadic numbers, power-of-two segment '
                 'lengths so float arithmetic is exact), all nestings of depth <= 3 over two atoms, and a single-fault '
                 'malformed stream; a quarter of the random cases use the integer channel ids 0, 1, 2 with renamings between integer and '
-                'string names; function templates whose expression is the time variable itself; a scope entry literally called t (a renamed '
+                'string names; function templates whose expression is the time variable itself; mappings below an iteration that re-define '
+                'the loop index, with repetition / sequence levels below (generator option and a dedicated family); a family '
+                'of time-reversed atomic pulses under time-dependent (affine in t) scalar arithmetic / parallel-channel values, '
+                'judged against denote of the atomic pulse at dur - t combined with the exactly evaluated operand; a scope entry literally called t (a renamed '
                 'parameter / loop index or an extra value) in trees whose only t-sensitive nodes are function templates; a family of single '
                 'multi-channel waveforms built from per-channel pulse arithmetic over such ramps; all channels of a '
                 'program (and of every played waveform) are sampled on ONE time array that must come back unchanged; '
@@ -120,7 +332,7 @@ def run(ctx: core.Ctx):
     ]
     ck = checker(ctx)
     for crec in ctx.corpus():
-        ck.replay(crec, from_corpus=True)
+        replay(ctx, crec, from_corpus=True)
         ctx.corpus_replayed += 1
     depth = 4 if ctx.quick else 6
     descs = [ck.desc(family='exhaustive', seed=i, spec=s) for i, s in enumerate(ptgen.exhaustive_specs(3))]
@@ -132,11 +344,18 @@ def run(ctx: core.Ctx):
     base = ctx.fork('shared-grid').getrandbits(48)
     descs += [ck.desc(family='custom', make=shared_grid_case, seed=base + i, label='shared-grid')
               for i in range(ctx.n(150, 3000))]
+    base = ctx.fork('remap-index').getrandbits(48)
+    descs += [ck.desc(family='custom', make=remap_index_case, seed=base + i, label='remapped-loop-index')
+              for i in range(ctx.n(100, 2000))]
     base = ctx.fork('malformed').getrandbits(48)
     descs += [ck.desc(family='malformed', seed=base + i) for i in range(ctx.n(150, 3000))]
     ck.run_batch(descs)
+    rrng = ctx.fork('revt')
+    check_revt(ctx, [revt_case(rrng) for _ in range(ctx.n(120, 2500))])
     ck.replay_known()
 
 
 def replay(ctx: core.Ctx, rec: dict, from_corpus: bool = False) -> bool:
+    if rec.get('kind') == 'revt':
+        return check_revt(ctx, [rec['desc']], label='corpus' if from_corpus else 'replay')
     return checker(ctx).replay(rec, from_corpus)
